@@ -262,30 +262,25 @@ fn subtype_collect_(
         trail.push((t1.clone(), t2.clone()));
         let before = errors.len();
         match (t1.as_ref(), t2.as_ref()) {
-            (Var(id), _) => subtype_collect_(
-                report,
-                gamma,
-                trail,
-                env,
-                env.rec_find_type_with_depth(id, depth).unwrap(),
-                t2,
-                depth,
-                path,
-                errors,
-                is_input,
-            ),
-            (_, Var(id)) => subtype_collect_(
-                report,
-                gamma,
-                trail,
-                env,
-                t1,
-                env.rec_find_type_with_depth(id, depth).unwrap(),
-                depth,
-                path,
-                errors,
-                is_input,
-            ),
+            (Var(id), _) => match env.rec_find_type_with_depth(id, depth) {
+                Ok(t) => subtype_collect_(
+                    report, gamma, trail, env, t, t2, depth, path, errors, is_input,
+                ),
+                // the recursion guard (or an unbound name) is an error, not a panic
+                Err(e) => errors.push(Incompatibility {
+                    path: path.clone(),
+                    message: e.to_string(),
+                }),
+            },
+            (_, Var(id)) => match env.rec_find_type_with_depth(id, depth) {
+                Ok(t) => subtype_collect_(
+                    report, gamma, trail, env, t1, t, depth, path, errors, is_input,
+                ),
+                Err(e) => errors.push(Incompatibility {
+                    path: path.clone(),
+                    message: e.to_string(),
+                }),
+            },
             (Knot(id), _) => subtype_collect_(
                 report,
                 gamma,
@@ -586,24 +581,15 @@ fn subtype_(
         let mark = trail.len();
         trail.push((t1.clone(), t2.clone()));
         let res = match (t1.as_ref(), t2.as_ref()) {
-            (Var(id), _) => subtype_(
-                report,
-                gamma,
-                trail,
-                env,
-                env.rec_find_type_with_depth(id, depth).unwrap(),
-                t2,
-                depth,
-            ),
-            (_, Var(id)) => subtype_(
-                report,
-                gamma,
-                trail,
-                env,
-                t1,
-                env.rec_find_type_with_depth(id, depth).unwrap(),
-                depth,
-            ),
+            // the recursion guard (or an unbound name) is an error, not a panic
+            (Var(id), _) => match env.rec_find_type_with_depth(id, depth) {
+                Ok(t) => subtype_(report, gamma, trail, env, t, t2, depth),
+                Err(e) => Err(e),
+            },
+            (_, Var(id)) => match env.rec_find_type_with_depth(id, depth) {
+                Ok(t) => subtype_(report, gamma, trail, env, t1, t, depth),
+                Err(e) => Err(e),
+            },
             (Knot(id), _) => subtype_(
                 report,
                 gamma,
@@ -758,20 +744,14 @@ fn equal_impl(
             return Ok(());
         }
         let res = match (t1.as_ref(), t2.as_ref()) {
-            (Var(id), _) => equal_impl(
-                gamma,
-                env,
-                env.rec_find_type_with_depth(id, depth).unwrap(),
-                t2,
-                depth,
-            ),
-            (_, Var(id)) => equal_impl(
-                gamma,
-                env,
-                t1,
-                env.rec_find_type_with_depth(id, depth).unwrap(),
-                depth,
-            ),
+            (Var(id), _) => match env.rec_find_type_with_depth(id, depth) {
+                Ok(t) => equal_impl(gamma, env, t, t2, depth),
+                Err(e) => Err(e),
+            },
+            (_, Var(id)) => match env.rec_find_type_with_depth(id, depth) {
+                Ok(t) => equal_impl(gamma, env, t1, t, depth),
+                Err(e) => Err(e),
+            },
             (Knot(id), _) => equal_impl(gamma, env, &find_type(id).unwrap(), t2, depth),
             (_, Knot(id)) => equal_impl(gamma, env, t1, &find_type(id).unwrap(), depth),
             (_, _) => unreachable!(),
